@@ -10,6 +10,7 @@ import (
 
 	"github.com/jamespfennell/gtfs/extensions"
 	gtfsrt "github.com/jamespfennell/gtfs/proto"
+	"github.com/jamespfennell/gtfs/verifhook"
 	"google.golang.org/protobuf/proto"
 )
 
@@ -279,6 +280,8 @@ func (e extension) updateElevatorAlert(ID *string, alert *gtfsrt.Alert) bool {
 		newID = fmt.Sprintf("%s#EL%s", platformID, elevatorID)
 	}
 
+	verifhook.Gate("nyct.elev")
+	verifhook.Emit("nyct.elev.begin", *ID, newID, informedEntityID, len(e.elevatorAlerts))
 	*ID = newID
 	deduplicatedAlert, alreadyExists := e.elevatorAlerts[newID]
 	if deduplicatedAlert == nil {
@@ -298,5 +301,6 @@ func (e extension) updateElevatorAlert(ID *string, alert *gtfsrt.Alert) bool {
 		})
 	}
 	e.elevatorAlerts[newID] = deduplicatedAlert
+	verifhook.Emit("nyct.elev.end", newID, alreadyExists, hasInformedEntity, len(deduplicatedAlert.InformedEntity), len(e.elevatorAlerts))
 	return alreadyExists
 }
